@@ -247,6 +247,7 @@ def cli_index_case(ctx, k):
     no_indels = rng.random() < 0.5
     recs = []
     musts = {}
+    ambiguous_skipped = 0
     for i in range(40):
         seq, rate = rng.choice(ads)
         kk = int(rate * len(seq))
@@ -257,7 +258,17 @@ def cli_index_case(ctx, k):
             sl[p] = rng.choice("NNNN.R")
         rest = G.rnd(rng, rng.randint(0, 12))
         s = "".join(sl) + rest if prefix else rest + "".join(sl)
-        musts[f"r{i}"] = (seq, rate, j) if j <= kk else None
+        must = (seq, rate, j) if j <= kk else None
+        if must is not None:
+            # reads that a second adapter also admits are, by design, left alone by the index when the two are equally
+            # good ("ambiguous", announced in the log): judged only when no other adapter occurs within its tolerance
+            from .c08 import occurs
+            for seq2, rate2 in ads:
+                if seq2 != seq and occurs(seq2, rate2, not no_indels, s, prefix) is not None:
+                    must = None
+                    ambiguous_skipped += 1
+                    break
+        musts[f"r{i}"] = must
         recs.append((f"r{i}", s, "I" * len(s)))
     d = os.path.join(ctx.scratch, f"cidx{k}")
     os.makedirs(d, exist_ok=True)
@@ -269,6 +280,7 @@ def cli_index_case(ctx, k):
         argv += (["--no-indels"] if no_indels else []) + (["-N"] if literal_n else []) + ["-o", "out.fq"]
         run = climon.run(d, argv + inputs, trace=False)
         ctx.count("cli_index_runs")
+        ctx.count("cli_index_reads_skipped_second_adapter_admits", ambiguous_skipped)
         if literal_n:
             ctx.count("cli_index_runs_with_literal_n")
         if run.rc != 0:
